@@ -1,4 +1,4 @@
 SPECIFICATION Spec
-INVARIANTS Mon_NoStaleServe Mon_NewTokens Mon_Late Mon_OneRefresh Mon_FailClosed Mon_NoPanic Mon_SignedOut
+INVARIANTS Mon_NoStaleServe Mon_NewTokens Mon_Late Mon_OneRefresh Mon_FailClosed Mon_NoPanic
 POSTCONDITION TraceAccepted
 CHECK_DEADLOCK FALSE
